@@ -56,7 +56,7 @@ pub fn until_next_unindented(input: &str, at_least_until: usize, fallback_len: u
     while !input.is_char_boundary(fallback_len) {
         fallback_len -= 1;
     }
-    input[..fallback_len].trim()
+    input[..fallback_len].trim_end()
 }
 
 pub fn hex_to_bools(c: char) -> [bool; 4] {
